@@ -46,6 +46,17 @@ Theorem C31_serve : forall s req seen resp,
 Proof. exact serve_correct. Qed.
 Print Assumptions C31_serve.
 
+(* Requests by number inside the stored range are always served (and the answer satisfies the
+   specification): ascending from a number up to the best number (0 means 1), descending from
+   any number; any max, any non-zero field mask, fewer than max_same+1 earlier identical requests. *)
+Theorem C31_serve_by_number_answers : forall s req n seen bb,
+  indexed s -> wf_store_b s = true -> find_blk s (s_best s) = Some bb ->
+  r_from req = FromNum n -> r_fields req <> 0 -> seen <= max_same ->
+  (r_dir req = dir_asc /\ (if n =? 0 then 1 else n) <= b_number bb) \/ r_dir req = dir_desc ->
+  exists resp, serve s req seen = Ok resp /\ serve_spec_b s req resp = true.
+Proof. exact serve_by_number_answers. Qed.
+Print Assumptions C31_serve_by_number_answers.
+
 (* the stores the driver builds are indexed *)
 Theorem C31_mkstore_indexed : forall l best, indexed (mkstore l best).
 Proof. intros. reflexivity. Qed.
